@@ -302,10 +302,10 @@ func runCheck(repo, verif, prop, tier string, keep bool) int {
 	replayDir := filepath.Join(verif, "replays", prop)
 	os.MkdirAll(replayDir, 0o755)
 
-	var obls []evObl
-	var units []evUnit
+	obls := []evObl{}
+	units := []evUnit{}
 	var samples []interface{}
-	var undecided, kfLines, violLines, engineErrs []string
+	undecided, kfLines, violLines, engineErrs := []string{}, []string{}, []string{}, []string{}
 	assumptions := map[string]bool{}
 	trusted := map[string]bool{}
 	abstracted := map[string]bool{}
@@ -388,7 +388,7 @@ func runCheck(repo, verif, prop, tier string, keep bool) int {
 		}
 	}
 	// evidence
-	var asm, tb, abs []string
+	asm, tb, abs := []string{}, []string{}, []string{}
 	for a := range assumptions {
 		asm = append(asm, a)
 	}
